@@ -1,6 +1,6 @@
 (* C03 - Reconstruction finishes as soon as the received blocks determine the data. Pinned statements only. *)
 From Coq Require Import List NArith.
-Require Import Recon ReconProof Stmts Span.
+Require Import Recon ReconProof Stmts Span ReconExtra.
 Import ListNotations.
 Open Scope N_scope.
 
@@ -15,4 +15,32 @@ Theorem c03_done_iff_full_rank :
     full_rank (Kacc P [] (firstn (S t) bl) (firstn (S t) rs)) nn.
 Proof. exact done_iff_full_rank. Qed.
 
+(* never before the blocks received determine the data: two originals consistent with the same blocks agree at Done *)
+Theorem c03_done_determines :
+  forall P nn cap vbits bs0 bl X X', contract P nn ->
+    Forall (consistent P nn X) bl -> Forall (consistent P nn X') bl ->
+    (exists len, In (Done len) (results P cap vbits nn bs0 bl)) ->
+    forall i, (i < nn)%nat -> X i = X' i.
+Proof. exact done_determines. Qed.
+
+(* once Done, every later call returns Done (same length) and performs no storage call *)
+Theorem c03_done_stable :
+  forall P cap vbits s i b len, let '(_, r, _) := handle_block P cap vbits s i b in r = Done len ->
+    forall i' b', let '(s'', r', ev) := handle_block P cap vbits (fst (fst (handle_block P cap vbits s i b))) i' b' in
+                  r' = Done len /\ ev = [].
+Proof. exact done_stable. Qed.
+
+(* a parity block is refused exactly when (stage 1, coded index, more unknowns than the capacity), and a refusal
+   changes nothing: same state, no storage call *)
+Theorem c03_refusal_exact :
+  forall P cap vbits s i b,
+    let '(s', r, ev) := handle_block P cap vbits s i b in
+    (r = TooManyMissing <->
+       is_complete s = false /\ l s = 0%nat /\ (n s <= i)%nat /\ (Nat.min cap vbits < missing s)%nat) /\
+    (r = TooManyMissing -> s' = s /\ ev = []).
+Proof. exact refusal_exact. Qed.
+
 Print Assumptions c03_done_iff_full_rank.
+Print Assumptions c03_done_determines.
+Print Assumptions c03_done_stable.
+Print Assumptions c03_refusal_exact.
